@@ -457,18 +457,15 @@ class RedlineEngine:
         return ins
 
     def track_delete_run(self, run: Run):
-        del_tag = self._create_track_change_tag("w:del")
-        new_run = create_element("w:r")
-        if run._r.rPr is not None:
-            new_run.append(deepcopy(run._r.rPr))
-        text_content = run.text
-        del_text = create_element("w:delText")
-        self._set_text_content(del_text, text_content)
-        new_run.append(del_text)
-        del_tag.append(new_run)
         parent = run._r.getparent()
         if parent is None:
             return None
+        del_tag = self._create_track_change_tag("w:del")
+        # Keep the run as it is (rPr, tabs, breaks, any other content); only its text becomes deleted text.
+        new_run = deepcopy(run._r)
+        for t in new_run.findall(qn("w:t")):
+            t.tag = qn("w:delText")
+        del_tag.append(new_run)
         parent.replace(run._r, del_tag)
         return del_tag
 
